@@ -12,7 +12,7 @@ func init() {
 		if err := c06.Run(r); err != nil {
 			return err
 		}
-		if r.Replay == "" {
+		if r.Replay == "" && !r.Race() {
 			// the extension helpers that block on a correlated reply
 			c15.RunWaits(r)
 			c18.RunWaits(r)
